@@ -344,6 +344,31 @@ def _r3(ctx):
             wants = [N.key(parse_expr(f"np.mean({O}[{x} & {y}])")) for x, y in ((m1, m2), (m2, m1))]
             mean_ok = N.key(v) in wants and key == f"({sv},{tv})" and is_ctl is False
             vals["effect"] = U(v)
+            # what else decides whether the pair gets an entry: only "this sample has a single-agent row of this treatment" - a test of the
+            # ROW SELECTION being non-empty.  A test of the selected VALUES (`np.any(obs[rows])`) drops a measured effect of exactly 0.0
+            for t, pol in other:
+                cexp = inline(inline(t if pol else ast.UnaryOp(op=ast.Not(), operand=t), benv), venv)
+                b_ = N.b(cexp)
+                present, on_values = [], []
+                for x, y in ((m1, m2), (m2, m1)):
+                    sel = f"({x} & {y})"
+                    present += [N.b(parse_expr(z)) for z in (f"np.any({sel})", f"{sel}.any()", f"np.sum({sel}) > 0", f"{sel}.sum() > 0", f"np.count_nonzero({sel}) > 0",
+                                                              f"len({O}[{sel}]) > 0", f"{O}[{sel}].size > 0", f"np.sum({sel}) != 0", f"np.sum({sel}) >= 1")]
+                    on_values += [N.b(parse_expr(z)) for z in (f"np.any({O}[{sel}])", f"{O}[{sel}].any()", f"np.all({O}[{sel}])", f"{O}[{sel}].all()",
+                                                                f"np.sum({O}[{sel}]) > 0", f"np.mean({O}[{sel}]) > 0")]
+                if b_ in present:
+                    continue
+                if b_ in on_values:
+                    ctx.bad("R3", f"{f.site()}::entry-iff-measured", f"the pair gets an entry only if `{U(cexp)[:140]}`: that tests the measured VALUES, not whether "
+                            f"there is a measurement - a single-agent effect of exactly 0.0 (complete kill) is treated as missing")
+                    mean_ok = None
+                    break
+                raise AnalysisError(f"{f.site()}: the effect entry is additionally guarded by `{U(cexp)[:140]}`, which is not a recognised test of the row selection being non-empty")
+            else:
+                if other:
+                    ctx.ok("R3", f"{f.site()}::entry-iff-measured", "the pair gets an entry iff the sample has a single-agent row of the treatment (row selection non-empty)")
+    if mean_ok is None:
+        return
     ctx.check("R3", f"{f.site()}::effect-is-mean", mean_ok and len(st) == 2,
               "effect(sample, treatment) = mean of that sample's single-agent observations of that treatment",
               f"the single-agent effect is `{vals.get('effect', 'not found')[:120]}`: with repeated measurements it must be their mean "
